@@ -16,6 +16,7 @@ for d in seeded/*/; do
   RC=$(grep -o "rc=[0-9]*" /tmp/seedtab_$S.out | head -1)
   RC="$RC (seed 0), $RC1 (seed 1)"
   if grep -q "no-failing-input-found" /tmp/seedrun_$S.out && ! grep "^VIOLATION" /tmp/seedrun_$S.out | grep -qv "no-failing-input-found"; then HOW="proof/correspondence broken, no-failing-input-found"; elif grep -q "^VIOLATION" /tmp/seedrun_$S.out; then HOW="failing input (replay file)"; else HOW="NOT CAUGHT"; fi
+  if [ "$HOW" = "NOT CAUGHT" ] && grep -q status_on_current_tree $d/meta.json; then HOW="not reported: neutralised by a later repair (see meta.json)"; fi
   FIRST=$(grep "failing input\|no longer checks" /tmp/seedrun_$S.out | head -1 | sed 's/|/\\|/g' | cut -c1-260)
   SUM=$(python3 -c "import json;print(json.load(open('$d/meta.json')).get('summary','')[:200].replace('|','/').replace('\n',' '))")
   echo "| $S | $SUM | $RC | $HOW | $FIRST |" >> $OUT
